@@ -5,7 +5,7 @@ HEADER = ("From Coq Require Import List ZArith QArith Qcanon Bool.\n"
           "Import ListNotations.\nOpen Scope Qc_scope.")
 CHECK_FN = "check"
 N_QUICK = 1600
-N_THOROUGH = 40000
+N_THOROUGH = 14000
 SHARD = 60
 TIMEOUT = 3000
 SHRINK_KEYS = ["ops", "calls"]
